@@ -111,7 +111,7 @@ def agg_lists(env):
         [("basic", k1, 0), ("basic", k2, 1), ("basic", R_ - k1, 0)],
         # encodings of special curve points (y.c1 = 0, y at the sign boundary)
         [("SPECIAL", 0)], [("SPECIAL", 1)], [("SPECIAL", 2), ("basic", k1, 0)], [("SPECIAL", 3)], [("SPECIAL", 4), ("SPECIAL", 4)],
-        [("SPECIAL", 5), ("SPECIAL", 0)],
+        [("SPECIAL", 5), ("SPECIAL", 0)], [("SPECIAL", 6)], [("SPECIAL", 7)], [("SPECIAL", 9), ("SPECIAL", 2)],
     ]
     return L
 
@@ -122,7 +122,11 @@ def _special_points():
     from ..model import zcash
 
     H_ = zcash.HALF
-    return zcash.g2_points_with_y([(H_ + 1, 0), (3, 0), (H_, 0), (5, H_), (2, H_ + 1), (0, 7)])
+    pts = zcash.g2_points_with_y([(t, 0) for t in range(1, 12)] + [(H_ - j, 0) for j in range(6)] + [(5, H_), (2, H_ + 1), (0, 7)])
+    out = []
+    for Q in pts[:6]:
+        out += [Q, zcash.E2.neg(Q)]  # y and -y: both halves of the sign rule (y.c0 > (p-1)/2 when y.c1 = 0)
+    return out
 
 
 def agg_case(i, env):
